@@ -399,12 +399,23 @@ pub fn run_cold(log: &[String]) -> (Vec<F>, String) {
     let ctx = w.ctx_a;
     let label = format!("cold start on {:?}", log);
     let mut regs: Vec<(String, Scru128Id, bool)> = vec![];
+    let mut orphaned = false;
     for (i, k) in log.iter().enumerate() {
         let name = format!("cold{}", i);
+        if k == "x" {
+            // a valid registration in a context whose own registration is removed before the
+            // service starts: it cannot announce itself - and must not stop the others
+            w.append_c(&format!("{}.register", name), w.ctx_b, Some(&lifecycle_script(&name)), None);
+            orphaned = true;
+            continue;
+        }
         let valid = k == "v";
         let src = if valid { lifecycle_script(&name) } else { "{run: {|a, b| 1}".to_string() };
         let f = w.append_c(&format!("{}.register", name), ctx, Some(&src), None);
         regs.push((name, f.id, valid));
+    }
+    if orphaned {
+        w.store.remove(&w.ctx_b).expect("harness: remove context registration");
     }
     let (s, e) = (w.store.clone(), xs::nu::Engine::new().expect("nu engine"));
     w.rt.spawn(async move {
@@ -456,6 +467,9 @@ pub fn cold_logs() -> Vec<Vec<String>> {
         for mask in 0..(1u32 << n) {
             out.push((0..n).map(|i| if mask & (1 << i) != 0 { "i".to_string() } else { "v".to_string() }).collect());
         }
+    }
+    for l in [vec!["x"], vec!["x", "v"], vec!["v", "x"], vec!["x", "i"], vec!["v", "x", "v"]] {
+        out.push(l.into_iter().map(|s| s.to_string()).collect());
     }
     out
 }
@@ -565,7 +579,7 @@ pub fn run(tier: &str, report: &mut Report) {
             });
         }
     }
-    report.cov("cold_starts", json!({"logs": logs.len(), "rule": "every log of 1..3 registrations (valid / not constructible) appended before the handler service starts"}));
+    report.cov("cold_starts", json!({"logs": logs.len(), "rule": "every log of 1..3 registrations (valid / not constructible) appended before the handler service starts, plus logs with a registration whose context was unregistered in the meantime"}));
     samples.push(json!({"history": hs.get(hs.len() / 2)}));
     report.cov("states", json!(race_points + hs.iter().map(|h| h.len() as u64).sum::<u64>()));
     report.cov("transitions", json!(race_points + hs.iter().map(|h| h.len() as u64).sum::<u64>()));
